@@ -116,6 +116,7 @@ class CRuntime(vrt.Runtime):
         self.log = []                    # (step, task, event)
         self.tearing_down = False
         self.names = {}
+        self.min_poll = 0.05
 
     # ---- tasks --------------------------------------------------------------
     def uniq(self, base):
@@ -255,7 +256,10 @@ class CRuntime(vrt.Runtime):
     def poll_wait(self, socks, timeout_s):
         ready = lambda: any(s.readable or s.closed for s in socks)
         if not ready():
-            self.yield_('blocked', cond=ready, wake=self.now + timeout_s)
+            # the library polls with a 1 ms time-out; an idle reader waking a thousand
+            # times per virtual second only burns the step budget (it is woken at once
+            # when data arrives or the socket is closed), so idle polls are coarsened
+            self.yield_('blocked', cond=ready, wake=self.now + max(timeout_s, self.min_poll))
         else:
             self.yield_('ready')
         return [s for s in socks if s.readable and not s.closed]
